@@ -844,6 +844,8 @@ def plan(tier, master_seed, runs=None):
     jobs = []
     for i in range(n):
         jobs.append({"kind": "run", "record": generate(run_seed(master_seed, PROP, i), tier, faults=(i % 10) >= 3)})
+        if jobs[-1]["record"]["numba_state"] in ("cold", "parallel_only"):
+            jobs[-1]["timeout"] = 900  # some simulated process has to compile a kernel
     return {"jobs": jobs, "determinism_slice": 6, "shrink_budget_s": 240}
 
 
